@@ -274,12 +274,13 @@ package saml2
 //@   safety [C09]
 //@   frame [C17]
 //@   assigns nothing
-//@   ensures [C02, C01] store: ctx != nil && ctx.CertificateStore == sp.IDPCertificateStore
+//@   ensures [C02, C01, C08] store: ctx != nil && ctx.CertificateStore == sp.IDPCertificateStore
 //@   ensures [C02] clock: ctx.Clock == sp.Clock
 //@   fresh [C02, C01, C17] ctx
 
 //@ func (sp *SAMLServiceProvider) validateElementSignature(el *etree.Element) (result *etree.Element, err error)
-//@   requires sp != nil && el != nil && sp.IDPCertificateStore != nil
+//@   requires sp != nil && el != nil
+//@   requires [C09] store: sp.IDPCertificateStore != nil
 //@   safety [C09]
 //@   frame [C17]
 //@   assigns nothing
@@ -340,7 +341,7 @@ package saml2
 //@   fresh [C09] doc when err == nil
 //@   ensures [C09] ok: err == nil ==> doc != nil && el != nil && el == doc.$root && el.parent != nil
 //@   ensures [C09] fail: err != nil ==> doc == nil && el == nil
-//@   ensures [C01, C12] roundtrip: err == nil ==> RoundTripStable(doc.$bytes)
+//@   ensures [C01, C12, C08] roundtrip: err == nil ==> RoundTripStable(doc.$bytes)
 //@   ensures [C12] source: err == nil ==> doc.$bytes == xml || doc.$bytes == readAllOf(Inflated(xml, maxSize))
 //@   ensures [C12] limit: err == nil && doc.$bytes != xml ==> len(doc.$bytes) <= EffLimit(maxSize)
 
@@ -401,9 +402,11 @@ package saml2
 // Inbound entry points
 // ---------------------------------------------------------------------------
 
-// Entry-point configuration: a certificate store is supplied (C09's own wording); everything else may be nil/empty.
+// Entry-point configuration: everything may be nil/empty. That a certificate store is supplied is C09's own wording
+// and is assumed for C09 only (`requires [C09] store`): for the other properties acceptance without a store has to be
+// shown impossible, not assumed away.
 //@ pure func InboundOK(sp *SAMLServiceProvider) bool {
-//@   return SPValid(sp) && sp.IDPCertificateStore != nil
+//@   return SPValid(sp)
 //@ }
 //@ pure func AllAssertionsValidated(sp *SAMLServiceProvider, r *types.Response) bool {
 //@   return forall k int :: 0 <= k && k < len(r.Assertions) ==>
@@ -416,6 +419,7 @@ package saml2
 
 //@ func (sp *SAMLServiceProvider) ValidateEncodedResponse(encodedResponse string) (res *types.Response, err error)
 //@   requires InboundOK(sp)
+//@   requires [C09] store: sp.IDPCertificateStore != nil
 //@   ensures [C17] config: *sp == old(*sp)
 //@   safety [C09]
 //@   fresh [C17] res when err == nil
@@ -446,6 +450,7 @@ package saml2
 
 //@ func (sp *SAMLServiceProvider) ValidateEncodedLogoutResponsePOST(encodedResponse string) (res *types.LogoutResponse, err error)
 //@   requires InboundOK(sp)
+//@   requires [C09] store: sp.IDPCertificateStore != nil
 //@   ensures [C17] config: *sp == old(*sp)
 //@   safety [C09]
 //@   fresh [C17] res when err == nil
@@ -461,6 +466,7 @@ package saml2
 
 //@ func (sp *SAMLServiceProvider) ValidateEncodedLogoutRequestPOST(encodedRequest string) (res *LogoutRequest, err error)
 //@   requires InboundOK(sp)
+//@   requires [C09] store: sp.IDPCertificateStore != nil
 //@   ensures [C17] config: *sp == old(*sp)
 //@   safety [C09]
 //@   fresh [C17] res when err == nil
@@ -504,6 +510,7 @@ package saml2
 
 //@ func (sp *SAMLServiceProvider) RetrieveAssertionInfo(encodedResponse string) (info *AssertionInfo, err error)
 //@   requires InboundOK(sp)
+//@   requires [C09] store: sp.IDPCertificateStore != nil
 //@   ensures [C17] config: *sp == old(*sp)
 //@   safety [C09]
 //@   ensures [C09] xor: (info != nil) != (err != nil)
@@ -759,6 +766,7 @@ package saml2
 //@ func (sp *SAMLServiceProvider) buildAuthnRequest(includeSig bool) (doc *etree.Document, err error)
 //@   requires SPValid(sp) && sp.signingContextMu.$mu == 0 && ((sp.SignAuthnRequests && includeSig) ==> HasSignKey(sp))
 //@   assigns sp.signingContext, sp.signingContextMu.$mu
+//@   ensures [C13, C14, C17] unlocked: sp.signingContextMu.$mu == 0
 //@   fresh doc when err == nil
 //@   ensures [C15] xor: (doc != nil) != (err != nil)
 //@   exit [C15] root: ProtocolRoot(authnRequest, "AuthnRequest")
@@ -794,6 +802,7 @@ package saml2
 //@ func (sp *SAMLServiceProvider) buildLogoutRequest(includeSig bool, nameID string, sessionIndex string) (doc *etree.Document, err error)
 //@   requires SPValid(sp) && sp.signingContextMu.$mu == 0 && (includeSig ==> HasSignKey(sp))
 //@   assigns sp.signingContext, sp.signingContextMu.$mu
+//@   ensures [C13, C14, C17] unlocked: sp.signingContextMu.$mu == 0
 //@   fresh doc when err == nil
 //@   ensures [C15] xor: (doc != nil) != (err != nil)
 //@   exit [C15] root: ProtocolRoot(logoutRequest, "LogoutRequest")
@@ -813,6 +822,7 @@ package saml2
 //@ func (sp *SAMLServiceProvider) buildLogoutResponse(statusCodeValue string, reqID string, includeSig bool) (doc *etree.Document, err error)
 //@   requires SPValid(sp) && sp.signingContextMu.$mu == 0 && (includeSig ==> HasSignKey(sp))
 //@   assigns sp.signingContext, sp.signingContextMu.$mu
+//@   ensures [C13, C14, C17] unlocked: sp.signingContextMu.$mu == 0
 //@   fresh doc when err == nil
 //@   ensures [C15] xor: (doc != nil) != (err != nil)
 //@   exit [C15] root: ProtocolRoot(logoutResponse, "LogoutResponse")
@@ -827,6 +837,149 @@ package saml2
 //@        && len(ChildEl(ChildEl(logoutResponse, 1), 0).Attr) == 1
 //@   exit [C15, C13] unsigned: err == nil && !includeSig ==> doc.$root == logoutResponse
 //@   exit [C15, C13] signed: err == nil && includeSig ==> doc.$root == signed && SignedCopy(sp, logoutResponse, signed, sp.signingContext)
+
+// ---------------------------------------------------------------------------
+// Exported wrappers (C13 C14 C15 C16): pure wiring. Each obtains its document from the builder named in the property
+// with the signing choice the property states, hands exactly that document to the serialiser or binding builder and
+// touches nothing in between (frame: an uncontracted call on the document, e.g. re-indenting a signed document, is a
+// violation), and returns that callee's results unchanged.
+// ---------------------------------------------------------------------------
+
+//@ func (sp *SAMLServiceProvider) BuildAuthRequestDocument() (doc *etree.Document, err error)
+//@   requires SPValid(sp) && sp.signingContextMu.$mu == 0 && (sp.SignAuthnRequests ==> HasSignKey(sp))
+//@   frame [C13, C15]
+//@   assigns sp.signingContext, sp.signingContextMu.$mu
+//@   ensures [C13, C14, C17] unlocked: sp.signingContextMu.$mu == 0
+//@   fresh doc when err == nil
+//@   exit [C13, C15] wiring: lastarg(SAMLServiceProvider.buildAuthnRequest, 1) == true
+//@        && doc == lastres(SAMLServiceProvider.buildAuthnRequest, 0) && err == lasterr(SAMLServiceProvider.buildAuthnRequest)
+
+//@ func (sp *SAMLServiceProvider) BuildAuthRequestDocumentNoSig() (doc *etree.Document, err error)
+//@   requires SPValid(sp) && sp.signingContextMu.$mu == 0
+//@   frame [C13, C15]
+//@   assigns sp.signingContext, sp.signingContextMu.$mu
+//@   ensures [C13, C14, C17] unlocked: sp.signingContextMu.$mu == 0
+//@   fresh doc when err == nil
+//@   exit [C13, C15] wiring: lastarg(SAMLServiceProvider.buildAuthnRequest, 1) == false
+//@        && doc == lastres(SAMLServiceProvider.buildAuthnRequest, 0) && err == lasterr(SAMLServiceProvider.buildAuthnRequest)
+
+//@ func (sp *SAMLServiceProvider) BuildAuthRequest() (result string, err error)
+//@   requires SPValid(sp) && sp.signingContextMu.$mu == 0 && (sp.SignAuthnRequests ==> HasSignKey(sp))
+//@   frame [C13, C15]
+//@   assigns sp.signingContext, sp.signingContextMu.$mu
+//@   exit [C13, C15] built: lasterr(SAMLServiceProvider.BuildAuthRequestDocument) != nil ==> err == lasterr(SAMLServiceProvider.BuildAuthRequestDocument)
+//@   exit [C13, C15] serialised: called(Document.WriteToString) ==> lastarg(Document.WriteToString, 0) == lastres(SAMLServiceProvider.BuildAuthRequestDocument, 0)
+//@        && result == lastres(Document.WriteToString, 0) && err == lasterr(Document.WriteToString)
+//@   exit [C13, C15] complete: err == nil ==> called(Document.WriteToString)
+
+//@ func (sp *SAMLServiceProvider) BuildAuthBodyPost(relayState string) (out []byte, err error)
+//@   nomerge
+//@   requires SPValid(sp) && sp.signingContextMu.$mu == 0 && (sp.SignAuthnRequests ==> HasSignKey(sp))
+//@   frame [C13, C16]
+//@   assigns sp.signingContext, sp.signingContextMu.$mu
+//@   exit [C13, C16] signed.called: err == nil && sp.SignAuthnRequests ==>
+//@        called(SAMLServiceProvider.BuildAuthRequestDocument) && !called(SAMLServiceProvider.BuildAuthRequestDocumentNoSig)
+//@   exit [C13, C16] signed.doc: err == nil && sp.SignAuthnRequests ==>
+//@        lastarg(SAMLServiceProvider.buildAuthBodyPostFromDocument, 2) == lastres(SAMLServiceProvider.BuildAuthRequestDocument, 0)
+//@   exit [C13, C16] unsigned.called: err == nil && !sp.SignAuthnRequests ==>
+//@        called(SAMLServiceProvider.BuildAuthRequestDocumentNoSig) && !called(SAMLServiceProvider.BuildAuthRequestDocument)
+//@   exit [C13, C16] unsigned.doc: err == nil && !sp.SignAuthnRequests ==>
+//@        lastarg(SAMLServiceProvider.buildAuthBodyPostFromDocument, 2) == lastres(SAMLServiceProvider.BuildAuthRequestDocumentNoSig, 0)
+//@   exit [C16] relay: err == nil ==> lastarg(SAMLServiceProvider.buildAuthBodyPostFromDocument, 1) == relayState
+//@        && out == lastres(SAMLServiceProvider.buildAuthBodyPostFromDocument, 0)
+
+//@ func (sp *SAMLServiceProvider) BuildAuthBodyPostFromDocument(relayState string, doc *etree.Document) (out []byte, err error)
+//@   requires sp != nil && doc != nil
+//@   frame [C16, C17]
+//@   assigns nothing
+//@   exit [C16] wiring: lastarg(SAMLServiceProvider.buildAuthBodyPostFromDocument, 1) == relayState && lastarg(SAMLServiceProvider.buildAuthBodyPostFromDocument, 2) == doc
+//@        && out == lastres(SAMLServiceProvider.buildAuthBodyPostFromDocument, 0) && err == lasterr(SAMLServiceProvider.buildAuthBodyPostFromDocument)
+
+//@ func (sp *SAMLServiceProvider) BuildLogoutBodyPostFromDocument(relayState string, doc *etree.Document) (out []byte, err error)
+//@   requires sp != nil && doc != nil
+//@   frame [C16, C17]
+//@   assigns nothing
+//@   exit [C16] wiring: lastarg(SAMLServiceProvider.buildLogoutBodyPostFromDocument, 1) == relayState && lastarg(SAMLServiceProvider.buildLogoutBodyPostFromDocument, 2) == doc
+//@        && out == lastres(SAMLServiceProvider.buildLogoutBodyPostFromDocument, 0) && err == lasterr(SAMLServiceProvider.buildLogoutBodyPostFromDocument)
+
+//@ func (sp *SAMLServiceProvider) BuildLogoutResponseBodyPostFromDocument(relayState string, doc *etree.Document) (out []byte, err error)
+//@   requires sp != nil && doc != nil
+//@   frame [C16, C17]
+//@   assigns nothing
+//@   exit [C16] wiring: lastarg(SAMLServiceProvider.buildLogoutResponseBodyPostFromDocument, 1) == relayState && lastarg(SAMLServiceProvider.buildLogoutResponseBodyPostFromDocument, 2) == doc
+//@        && out == lastres(SAMLServiceProvider.buildLogoutResponseBodyPostFromDocument, 0) && err == lasterr(SAMLServiceProvider.buildLogoutResponseBodyPostFromDocument)
+
+//@ func (sp *SAMLServiceProvider) BuildAuthURLFromDocument(relayState string, doc *etree.Document) (result string, err error)
+//@   requires SPValid(sp) && doc != nil && sp.signingContextMu.$mu == 0 && NoReservedParams(sp.IdentityProviderSSOURL)
+//@   frame [C14, C17]
+//@   assigns sp.signingContext, sp.signingContextMu.$mu
+//@   exit [C14] wiring: lastarg(SAMLServiceProvider.buildAuthURLFromDocument, 1) == relayState && lastarg(SAMLServiceProvider.buildAuthURLFromDocument, 2) == BindingHttpPost
+//@        && lastarg(SAMLServiceProvider.buildAuthURLFromDocument, 3) == doc
+//@        && result == lastres(SAMLServiceProvider.buildAuthURLFromDocument, 0) && err == lasterr(SAMLServiceProvider.buildAuthURLFromDocument)
+
+//@ func (sp *SAMLServiceProvider) BuildAuthURLRedirect(relayState string, doc *etree.Document) (result string, err error)
+//@   requires SPValid(sp) && doc != nil && sp.signingContextMu.$mu == 0 && NoReservedParams(sp.IdentityProviderSSOURL)
+//@   requires sp.SignAuthnRequests ==> HasSignKey(sp)
+//@   frame [C14, C17]
+//@   assigns sp.signingContext, sp.signingContextMu.$mu
+//@   exit [C14] wiring: lastarg(SAMLServiceProvider.buildAuthURLFromDocument, 1) == relayState && lastarg(SAMLServiceProvider.buildAuthURLFromDocument, 2) == BindingHttpRedirect
+//@        && lastarg(SAMLServiceProvider.buildAuthURLFromDocument, 3) == doc
+//@        && result == lastres(SAMLServiceProvider.buildAuthURLFromDocument, 0) && err == lasterr(SAMLServiceProvider.buildAuthURLFromDocument)
+
+//@ func (sp *SAMLServiceProvider) BuildLogoutURLRedirect(relayState string, doc *etree.Document) (result string, err error)
+//@   requires SPValid(sp) && doc != nil && sp.signingContextMu.$mu == 0 && NoReservedParams(sp.IdentityProviderSLOURL) && HasSignKey(sp)
+//@   frame [C14, C17]
+//@   assigns sp.signingContext, sp.signingContextMu.$mu
+//@   exit [C14] wiring: lastarg(SAMLServiceProvider.buildLogoutURLFromDocument, 1) == relayState && lastarg(SAMLServiceProvider.buildLogoutURLFromDocument, 2) == BindingHttpRedirect
+//@        && lastarg(SAMLServiceProvider.buildLogoutURLFromDocument, 3) == doc
+//@        && result == lastres(SAMLServiceProvider.buildLogoutURLFromDocument, 0) && err == lasterr(SAMLServiceProvider.buildLogoutURLFromDocument)
+
+//@ func (sp *SAMLServiceProvider) BuildAuthURL(relayState string) (result string, err error)
+//@   requires SPValid(sp) && sp.signingContextMu.$mu == 0 && NoReservedParams(sp.IdentityProviderSSOURL) && (sp.SignAuthnRequests ==> HasSignKey(sp))
+//@   frame [C14, C13]
+//@   assigns sp.signingContext, sp.signingContextMu.$mu
+//@   exit [C14, C13] built: lasterr(SAMLServiceProvider.BuildAuthRequestDocument) != nil ==> err == lasterr(SAMLServiceProvider.BuildAuthRequestDocument)
+//@   exit [C14, C13] complete: err == nil ==> called(SAMLServiceProvider.BuildAuthURLFromDocument)
+//@   exit [C14, C13] wiring: called(SAMLServiceProvider.BuildAuthURLFromDocument) ==>
+//@        lastarg(SAMLServiceProvider.BuildAuthURLFromDocument, 1) == relayState
+//@        && lastarg(SAMLServiceProvider.BuildAuthURLFromDocument, 2) == lastres(SAMLServiceProvider.BuildAuthRequestDocument, 0)
+//@        && result == lastres(SAMLServiceProvider.BuildAuthURLFromDocument, 0) && err == lasterr(SAMLServiceProvider.BuildAuthURLFromDocument)
+
+//@ func (sp *SAMLServiceProvider) BuildLogoutRequestDocument(nameID string, sessionIndex string) (doc *etree.Document, err error)
+//@   requires SPValid(sp) && sp.signingContextMu.$mu == 0 && HasSignKey(sp)
+//@   frame [C13, C15]
+//@   assigns sp.signingContext, sp.signingContextMu.$mu
+//@   fresh doc when err == nil
+//@   exit [C13, C15] wiring: lastarg(SAMLServiceProvider.buildLogoutRequest, 1) == true && lastarg(SAMLServiceProvider.buildLogoutRequest, 2) == nameID
+//@        && lastarg(SAMLServiceProvider.buildLogoutRequest, 3) == sessionIndex
+//@        && doc == lastres(SAMLServiceProvider.buildLogoutRequest, 0) && err == lasterr(SAMLServiceProvider.buildLogoutRequest)
+
+//@ func (sp *SAMLServiceProvider) BuildLogoutRequestDocumentNoSig(nameID string, sessionIndex string) (doc *etree.Document, err error)
+//@   requires SPValid(sp) && sp.signingContextMu.$mu == 0
+//@   frame [C13, C15]
+//@   assigns sp.signingContext, sp.signingContextMu.$mu
+//@   fresh doc when err == nil
+//@   exit [C13, C15] wiring: lastarg(SAMLServiceProvider.buildLogoutRequest, 1) == false && lastarg(SAMLServiceProvider.buildLogoutRequest, 2) == nameID
+//@        && lastarg(SAMLServiceProvider.buildLogoutRequest, 3) == sessionIndex
+//@        && doc == lastres(SAMLServiceProvider.buildLogoutRequest, 0) && err == lasterr(SAMLServiceProvider.buildLogoutRequest)
+
+//@ func (sp *SAMLServiceProvider) BuildLogoutResponseDocument(status string, reqID string) (doc *etree.Document, err error)
+//@   requires SPValid(sp) && sp.signingContextMu.$mu == 0 && HasSignKey(sp)
+//@   frame [C13, C15]
+//@   assigns sp.signingContext, sp.signingContextMu.$mu
+//@   fresh doc when err == nil
+//@   exit [C13, C15] wiring: lastarg(SAMLServiceProvider.buildLogoutResponse, 1) == status && lastarg(SAMLServiceProvider.buildLogoutResponse, 2) == reqID
+//@        && lastarg(SAMLServiceProvider.buildLogoutResponse, 3) == true
+//@        && doc == lastres(SAMLServiceProvider.buildLogoutResponse, 0) && err == lasterr(SAMLServiceProvider.buildLogoutResponse)
+
+//@ func (sp *SAMLServiceProvider) BuildLogoutResponseDocumentNoSig(status string, reqID string) (doc *etree.Document, err error)
+//@   requires SPValid(sp) && sp.signingContextMu.$mu == 0
+//@   frame [C13, C15]
+//@   assigns sp.signingContext, sp.signingContextMu.$mu
+//@   fresh doc when err == nil
+//@   exit [C13, C15] wiring: lastarg(SAMLServiceProvider.buildLogoutResponse, 1) == status && lastarg(SAMLServiceProvider.buildLogoutResponse, 2) == reqID
+//@        && lastarg(SAMLServiceProvider.buildLogoutResponse, 3) == false
+//@        && doc == lastres(SAMLServiceProvider.buildLogoutResponse, 0) && err == lasterr(SAMLServiceProvider.buildLogoutResponse)
 
 // ---------------------------------------------------------------------------
 // HTTP-POST binding forms (C16)
@@ -892,6 +1045,7 @@ package saml2
 //@ func (sp *SAMLServiceProvider) buildAuthURLFromDocument(relayState string, binding string, doc *etree.Document) (result string, err error)
 //@   requires SPValid(sp) && doc != nil && sp.signingContextMu.$mu == 0 && NoReservedParams(sp.IdentityProviderSSOURL)
 //@   requires (sp.SignAuthnRequests && binding == BindingHttpRedirect) ==> HasSignKey(sp)
+//@   frame [C17]
 //@   assigns sp.signingContext, sp.signingContextMu.$mu
 //@   exit [C14] endpoint: err == nil ==> SameURLButQuery(parsedUrl, sp.IdentityProviderSSOURL) && result == urlString(*parsedUrl)
 //@   exit [C14] query: err == nil ==> parsedUrl.RawQuery == encodeQuery(qs.$keys, qs.$vals)
@@ -911,6 +1065,7 @@ package saml2
 //@ func (sp *SAMLServiceProvider) buildLogoutURLFromDocument(relayState string, binding string, doc *etree.Document) (result string, err error)
 //@   requires SPValid(sp) && doc != nil && sp.signingContextMu.$mu == 0 && NoReservedParams(sp.IdentityProviderSLOURL)
 //@   requires binding == BindingHttpRedirect ==> HasSignKey(sp)
+//@   frame [C17]
 //@   assigns sp.signingContext, sp.signingContextMu.$mu
 //@   exit [C14] endpoint: err == nil ==> SameURLButQuery(parsedUrl, sp.IdentityProviderSLOURL) && result == urlString(*parsedUrl)
 //@   exit [C14] query: err == nil ==> parsedUrl.RawQuery == encodeQuery(qs.$keys, qs.$vals)
